@@ -296,7 +296,19 @@ impl Builder {
     }
 
     fn clause<M: Mode>(self: &Rc<Self>, env: &mut Env, c: &[G]) -> Vec<M> {
-        c.iter().map(|g| self.goal::<M>(env, g)).collect()
+        // A `closure { }` goal that is written twice in a row is built ONCE and the goal VALUE is
+        // used twice (`let g = closure..; [g.clone(), g]`): every invocation of a closure goal
+        // must instantiate its body afresh, so this denotes the same as two separate goals.
+        let mut out: Vec<M> = vec![];
+        for (i, g) in c.iter().enumerate() {
+            if i > 0 && matches!(g, G::Closure(_)) && c[i - 1] == *g {
+                let prev = out[i - 1].clone();
+                out.push(prev);
+            } else {
+                out.push(self.goal::<M>(env, g));
+            }
+        }
+        out
     }
 
     fn clauses<M: Mode>(self: &Rc<Self>, env: &mut Env, cs: &[Vec<G>]) -> Vec<Vec<M>> {
